@@ -162,9 +162,10 @@ class Session:
         args = cli_args.DiffOptions(query=_harness_query(), config=self.dir, acl_safe=bool(acl_safe), no_acl_exclusive=True)
         return ann_diff.worker(self.dev.id, args, self._stdin(args, None), self.loader, None)
 
-    def patch(self, acl_safe=False):
+    def patch(self, acl_safe=False, clear=False):
         from annet import api, cli_args
-        args = cli_args.ShowPatchOptions(query=_harness_query(), config=self.dir, acl_safe=bool(acl_safe), indent="  ", no_acl_exclusive=True)
+        args = cli_args.ShowPatchOptions(query=_harness_query(), config=self.dir, acl_safe=bool(acl_safe), indent="  ", no_acl_exclusive=True,
+                                         clear=bool(clear))
         return list(api._patch_worker(self.dev.id, args, self._stdin(args, self.dir), self.loader, None))
 
     def patch_diff(self, acl_safe=False):
@@ -179,13 +180,14 @@ class Session:
         args = cli_args.ShowGenOptions(query=_harness_query(), acl_safe=bool(acl_safe), indent="  ", no_acl_exclusive=True)
         return list(ann_gen.worker(self.dev.id, args, self._stdin(args, None), self.loader, None))
 
-    def deploy_job(self, acl_safe=False, dont_commit=False):
+    def deploy_job(self, acl_safe=False, dont_commit=False, clear=False):
         """what annet.api.Deployer does per device: old_new(...) -> DeployerJob.from_device(...).parse_result(res)"""
         from annet import api
         from annet import gen as ann_gen
-        args = env.deploy_options(config=self.dir, acl_safe=bool(acl_safe), dont_commit=bool(dont_commit), indent="  ", no_acl_exclusive=True)
+        args = env.deploy_options(config=self.dir, acl_safe=bool(acl_safe), dont_commit=bool(dont_commit), indent="  ", no_acl_exclusive=True,
+                                  clear=bool(clear))
         jobs = []
-        for res in ann_gen.old_new(args, config=args.config, loader=self.loader, filterer=None,
+        for res in ann_gen.old_new(args, config=args.config, loader=self.loader, filterer=None, no_new=args.clear,
                                    stdin=self._stdin(args, args.config), do_files_download=True):
             job = api.DeployerJob.from_device(res.device, args)
             job.parse_result(res)
